@@ -15,6 +15,7 @@ PROFILE = {
     "timeouts": [60, 600],
     "p_human": 0.35,
     "idle_time_out": 120,
+    "depot": 0.6,  # fleets scenarios: a depot shared by up to three human drivers, fewer plugs than drivers
 }
 
 
